@@ -83,6 +83,12 @@ func buildC11(c *c11Case) *liveCase {
 			return strings.TrimSuffix(m, ">") + ` admin="admin" dirtyId="7" time="2024/09/29 10:00:00">`
 		})
 	}
+	if c.Variant == "foreign-reload-banner" && lc.Cli != nil {
+		// Somebody else's 'reload in N' is pending; its banner lands in
+		// the middle of the configuration listing.
+		lc.Cli.ReloadPending = true
+		lc.Cli.Banners = []sim.Banner{{Cmd: "sh run", Form: "in-output", Kind: "2:00", Chunk: "whole"}}
+	}
 	if c.Variant == "unknown-interface" && lc.Cli != nil {
 		lc.Cli.Config = strings.ReplaceAll(lc.Cli.Config, "nameif inside", "nameif dmz")
 		lc.Cli.Config = strings.ReplaceAll(lc.Cli.Config, "interface Ethernet1\n", "interface Ethernet7\n")
@@ -157,8 +163,11 @@ func checkC11(tier, replay string) int {
 			lr.cleanup()
 		})
 		for i, k := range keys {
-			for _, v := range []string{"healthy", "marker-absent", "wrong-hostname", "unknown-interface", "not-configured", "uncommitted-own"} {
+			for _, v := range []string{"healthy", "marker-absent", "wrong-hostname", "unknown-interface", "not-configured", "uncommitted-own", "foreign-reload-banner"} {
 				if v == "uncommitted-own" && k.typ != "panos" {
+					continue
+				}
+				if v == "foreign-reload-banner" && k.typ != "ios" {
 					continue
 				}
 				if v == "unknown-interface" && k.typ != "asa" && k.typ != "ios" {
@@ -230,6 +239,13 @@ func checkC11(tier, replay string) int {
 		for _, e := range lr.Events {
 			if e.Class == "config-change" || e.Class == "save" {
 				forbidden = e.Class + ": " + e.Raw
+				break
+			}
+			// IOS: a compare has no reason to enter configuration mode
+			// (its session settings are exec commands); the settings
+			// approve makes there change the device.
+			if c.Type == "ios" && (e.Class == "session-setting" && e.Mode == "config" || e.Class == "mode" && e.Raw == "configure terminal") {
+				forbidden = "config-mode: " + e.Raw
 				break
 			}
 		}
